@@ -96,7 +96,7 @@ def main(argv=None):
                                      'only': c.only.get(prop), 'prop': prop, 'crosscheck': 2 if tier == 'quick' else 25,
                                      'known': [f.get('obligation', '') for f in findings if f.get('property') == prop]}))
     lem = [(n, p, f) for (n, p, f) in lemmas if prop in p and a.only in n]
-    standins = [(n, p, f) for (n, p, f) in api.STANDINS if prop in p and a.only in n]
+    standins = [(n, p, f) for (n, p, f) in api.STANDINS if prop in p and a.only in n and (tier == 'thorough' or not getattr(f, '_thorough_only', False))]
 
     results = []
     lemma_results = []
